@@ -20,7 +20,7 @@ import (
 // TestKnownFindings run with strict=true, i.e. with no exclusion.
 var openFindings = map[string]bool{
 	"F-C10-1": false, // copy(<builtin function>) lost the function's name; repaired in /repo by bd9c161, replay under replays/C10/fixed
-	"F-C10-2": true, // bytes(<negative int>) panics (makeslice) instead of failing in an orderly way
+	"F-C10-2": true,  // bytes(<negative int>) panics (makeslice) instead of failing in an orderly way
 }
 
 func excluded(id string, strict bool) bool { return openFindings[id] && !strict }
